@@ -29,7 +29,7 @@ from vlib import *
 PAYLOADS = ["i7", "spq"]
 CMDS = [k + ":" + p for k in "ntr" for p in PAYLOADS]           # the 6-letter driver alphabet
 ACMDS = [k + ":" + p for k in "nt" for p in PAYLOADS]           # async: fulfil / reject
-NDEPTH = 7                                                      # host-depth variants DV[0..6] of the harness
+NDEPTH = 9                                                      # host-depth variants DV[0..8] of the harness
 NSTYLE = 5                                                      # promise settle styles of the harness
 
 # ----------------------------------------------------------------------------------------- AST helpers
@@ -591,11 +591,11 @@ def cut_async(trace):
     return " ".join(out)
 
 class Case:
-    __slots__ = ("body", "decl", "mode", "probe", "hists", "depths", "create", "tag", "exp", "sig", "gidx")
+    __slots__ = ("body", "decl", "mode", "probe", "hists", "depths", "create", "tag", "exp", "sig", "gidx", "lay")
     def __init__(self, body, decl, mode, probe, hists, depths, create, tag, sig=None):
         self.body, self.decl, self.mode, self.probe = body, decl, mode, probe
         self.hists, self.depths, self.create, self.tag = hists, depths, create, tag
-        self.exp, self.sig, self.gidx = None, sig, None
+        self.exp, self.sig, self.gidx, self.lay = None, sig, None, None
     def src(self): return js_func(self.body, self.mode, self.probe, self.decl)
     def tokens(self): return " ".join(tok_block(self.body))
     def harness_line(self):
@@ -617,7 +617,12 @@ def yield_star_ids(body):
 def set_expected(case, model_out):
     """case.exp = spec traces; case.gidx[i] = first command of history i during which a yield*-delegate makes a re-entrant
     call on the generator (unrepaired finding G, known_findings.d/C09.json: goja does not reject it) or None."""
-    tr = model_out.split(" # ")
+    raw = model_out.split(" # ")
+    tr, lay = [], []
+    for t in raw:
+        a, _, b = t.partition(" ~ ")
+        tr.append(a.strip()); lay.append(b.strip())
+    case.lay = lay
     case.exp = [cut_async(t) for t in tr] if case.mode == "async" else tr
     ids = yield_star_ids(case.body) if case.mode == "gen" else set()
     gidx = []
@@ -829,7 +834,7 @@ def build_cases(ctx):
     return cases
 
 N_EX_QUICK, N_EX_THOROUGH = 20, 400
-N_THEOREMS = 38
+N_THEOREMS = 52
 
 RULE = ("one evaluation = one (body, driver history) pair run on goja and on the Lean model (plus one per mechanism dump); "
         "distinct & non-trivial = distinct (mode, body, history) whose trace contains at least one suspension followed by a further command")
@@ -837,8 +842,15 @@ RULE = ("one evaluation = one (body, driver history) pair run on goja and on the
 # ----------------------------------------------------------------------------------------- main
 def main(ctx):
     t0 = time.time()
+    regen_ok = ctx.regen()                                   # extract/c09.go -> Generated/C09_Decisions.lean
     ok, errs = ctx.lake_build(["GojaModel.C09.Props", "model_c09"])
     ctx.audit("GojaModel.C09.Props", expect_min=N_THEOREMS)
+    if regen_ok:
+        # regenerated decision facts interpreted and proved equal to the Mech / genPre definitions (separate build so that
+        # a broken tie does not stop the model driver from building)
+        tok, terrs = ctx.lake_build(["GojaModel.C09.Tie"])
+        if tok:
+            ctx.audit("GojaModel.C09.Tie", expect_min=7)
     if ctx.tier == "thorough":
         ctx.leanchecker("GojaModel.C09.Props")
     t1 = time.time()
@@ -870,7 +882,7 @@ def main(ctx):
         ctx.obligation("corr:model-run", "correspondence", False, "model driver unavailable or failing (Lean build broken?)")
         indep_oracle(ctx, cases, hl)        # the implementation-side search still runs: laws that need no model
         return ctx.finish(level="proof", rule=RULE)
-    n_hist = 0; bad = {"gen": [], "async": []}; mech = {}; idle_bad = []; g_hits = []
+    n_hist = 0; bad = {"gen": [], "async": []}; mech = {}; idle_bad = []; g_hits = []; lay_bad = []; lay_n = 0
     feats = {}; reskinds = {"Y": 0, "D": 0, "T": 0}; lens = {}; depth_used = {}
     for c, h in zip(cases, hl):
         if h is None:
@@ -881,6 +893,19 @@ def main(ctx):
             mech[q] = o
         if idle != "ok":
             idle_bad.append((c, idle))
+        if c.mode == "gen" and not mm:
+            try:
+                hlay = json.loads(h).get("layouts") or []
+            except Exception:
+                hlay = []
+            for i, (ml_, hl_) in enumerate(zip(c.lay, hlay)):
+                if c.gidx and c.gidx[i] is not None:
+                    continue
+                lay_n += ml_.count("[")
+                if ml_ != hl_ and len(lay_bad) < 5:
+                    lay_bad.append((c, i, ml_, hl_))
+                elif ml_ != hl_:
+                    lay_bad.append(None)
         for (i, e, o) in mm:
             if explained_by_G(c, i, e, o):
                 g_hits.append((c, i, e, o))
@@ -919,6 +944,11 @@ def main(ctx):
                 unexplained -= 1
         ctx.obligation("corr:%s-histories" % kind, "correspondence", unexplained == 0,
                        "%d disagreements (%d unexplained)" % (len(bad[kind]), unexplained))
+    # compiler layout: goja's saved try stack at every suspension vs Link.encode of the spec continuation
+    lb = [x for x in lay_bad if x is not None]
+    ctx.stats["layout_suspensions_compared"] = lay_n
+    ctx.obligation("corr:layout-encode", "correspondence", not lay_bad and lay_n > 0,
+                   ("%d histories differ; first: {%s} history [%s]: encode %s / goja %s" % (len(lay_bad), lb[0][0].src()[:300], lb[0][0].hists[lb[0][1]], lb[0][2], lb[0][3])) if lb else "%d suspensions" % lay_n)
     # caller's vm at idle
     for (c, idle) in idle_bad[:2]:
         try:
